@@ -4,6 +4,18 @@ import json, os, subprocess
 V = os.path.dirname(os.path.dirname(os.path.abspath(__file__)))
 
 CHECKS = {
+ "C01": dict(engine="E3", category="exploration", design_ref="§4 C01",
+   technique="bounded-exhaustive enumeration of node forests (all shapes <=N nodes x label deviations, all depths 0..99) with a structural round-trip oracle",
+   text="Every ordered forest up to N nodes (quick 6, thorough 8) with up to two deviating labels over every specialised tag, odd-but-legal tags, values and pointers is built through the public API (role-node forests through text), encoded and decoded; the decoded forest must equal the source position by position incl. Go node type and BOM flag. All depths 0..99.",
+   note="Small-scope: nothing is claimed beyond N nodes / 2 deviating labels / the listed alphabet. Expected node kinds come from the harness's own tag table."),
+ "C02": dict(engine="E3", category="model_checking", design_ref="§4 C02",
+   technique="bounded-exhaustive enumeration of level walks and byte strings, each executed on a hand-written reference decoder and on the real decoder (differential, every model case replayed on the implementation)",
+   text="Reference-model check: all level walks (levels 0-4,10) up to n lines with up to 2 deviating lines from a 32-symbol line-deviation alphabet, all byte strings up to L over an 8-byte alphabet, x 4 decoder option combinations; whenever the implementation accepts, its tree must equal the reference decoder's tree, and encode/decode must be a fixpoint.",
+   note="Trusts ref/decode.go. One-directional as the property is (only accepted streams are compared). ASCII white-space trimming only (alphabet has no other Unicode space)."),
+ "C03": dict(engine="E3", category="exploration", design_ref="§4 C03",
+   technique="bounded-exhaustive enumeration of adversarial line sequences, level walks and byte strings under every decoder option combination; oracle: document or line-naming error, only the documented panic",
+   text="All sequences of up to n lines over a structure-adversarial alphabet (HUSB/WIFE/CHIL/FAM/INDI/NAME/DATE x level 0-3), C02's walks and byte strings, plus parametric giants, x 4 option combinations; every run must return a document or an error 'line <n>: ...' naming the right line; only the documented 'indent is too large' panic is tolerated and only with AllowInvalidIndents off.",
+   note="No native fuzzing (sampling is a different family). Giants are single cases, not a space."),
  "C05": dict(engine="E3", category="exploration", design_ref="§4 C05",
    technique="bounded-exhaustive enumeration of every calendar date against an own calendar reference model",
    text="Every day, month-year and year (quick: three 400-year blocks; thorough: all of 1..9999) is run through the real Date.Time/Years/IsBefore/IsAfter/Duration/Minimum/Maximum and compared with own proleptic-Gregorian arithmetic; exhaustive as the property's quantifier states.",
